@@ -64,7 +64,8 @@ func newPMFromFile(options plugintypes.OperatorOptions) (plugintypes.Operator, e
 		DFA:                  false,
 	})
 
-	m, _ := memoizeDo(options.Memoizer, strings.Join(options.Path, ",")+filepath, func() (any, error) { return builder.Build(lines), nil })
+	// The key carries the content: the same file name may resolve to different files (root FS, search path).
+	m, _ := memoizeDo(options.Memoizer, "pmFromFile:"+strings.Join(lines, "\x00"), func() (any, error) { return builder.Build(lines), nil })
 
 	return &pm{matcher: m.(ahocorasick.AhoCorasick), minLen: minPatternLen(lines)}, nil
 }
